@@ -269,11 +269,8 @@ func runParse(candFile string) {
 	for _, k := range kinds {
 		enumStrings(charSets[k], L2, func(s string) { parseCase(k, s, "exh-reduced") })
 		n := T
-		if k == "lit" || k == "obj" {
+		if k == "lit" || k == "obj" { // 14 and 12 tokens: one token less keeps the product affordable
 			n = T - 1
-			if thorough {
-				n = T
-			}
 		}
 		enumStrings(tokenSets[k], n, func(s string) { parseCase(k, s, "exh-tokens") })
 	}
